@@ -74,5 +74,14 @@ if __name__ == "__main__":
     rc = main()
     sys.stdout.flush()
     sys.stderr.flush()
+    try:  # the multiprocessing scratch directory is normally removed by an exit handler that os._exit skips
+        import multiprocessing
+        import shutil
+
+        _d = multiprocessing.current_process()._config.get("tempdir")
+        if _d and os.path.basename(_d).startswith("pymp-"):
+            shutil.rmtree(_d, ignore_errors=True)
+    except Exception:
+        pass
     # skip interpreter-exit joins of worker pools / helper threads: everything is written at this point
     os._exit(rc if isinstance(rc, int) else 0)
